@@ -179,6 +179,8 @@ Lemma upd_live_sess : forall w a b c, w_sess (upd_live w a b c) = w_sess w.
 Proof. reflexivity. Qed.
 Lemma upd_script_sess : forall w l, w_sess (upd_script w l) = w_sess w.
 Proof. reflexivity. Qed.
+Lemma upd_script_script : forall w l, w_script (upd_script w l) = l.
+Proof. reflexivity. Qed.
 Lemma one_fresh : forall {A} (st : A -> sstate) (l : list A), map st l = [SWrite 0] -> Forall (fun e => okst (st e)) l.
 Proof.
   intros A st l H. destruct l as [|x [|y t]]; try discriminate H. cbn [map] in H. injection H as H.
@@ -206,13 +208,16 @@ Proof.
   assert (Sr' : map re_st (ob_ret (s_ob (w_sess ex_conn))) = [SWrite 0]) by (vm_compute; reflexivity).
   assert (Na : packet_available (s_reader (w_sess ex_conn)) = false) by (vm_compute; reflexivity).
   assert (Bl' : lenN (ob_buf (s_ob (w_sess ex_conn))) <= BIG) by (vm_compute; intros X; discriminate X).
-  assert (Q1 : PQ ex_conn) by (vm_compute; reflexivity).
+  assert (Q1 : PQ ex_conn).
+  { split; [vm_compute; reflexivity|]. unfold Calm. exact (eq_ind_r (fun l => Forall (fun e => slow_ev e = false) l) (Forall_nil _) Sc). }
   assert (H1 : Hd ex_conn).
   { split; [|exact Q1]. unfold Hc.
     split; [exact Sc|]. split; [exact Lv|]. split; [exact I1|]. split; [exact Mp|].
     split; [intros d E; pose proof (eq_trans (eq_sym Pt) E) as X; discriminate X|].
     split; [exact Bl'|]. split; [apply (one_fresh ce_st); exact Sc'|]. split; [apply (one_fresh le_st); exact Sl'|apply (one_fresh re_st); exact Sr']. }
-  assert (H2 : PQ ex_frag) by (vm_compute; reflexivity).
+  assert (H2 : PQ ex_frag).
+  { split; [vm_compute; reflexivity|]. unfold Calm, ex_frag. rewrite upd_script_script.
+    apply Forall_forall. intros x Hx. apply repeat_spec in Hx. subst x. reflexivity. }
   split; [exact (proj1 I0)|]. split; [exact Ec|]. split; [exact H1|]. split; [exact Na|].
   split; [exact (eq_trans Ef Ec)|]. split; [|exact H2].
   exact (eq_ind_r (fun s => WInv s) I1 Ef).
